@@ -145,7 +145,7 @@ def parse_template(text, variant=None):
                     if not mm:
                         raise SystemExit(f"template line {i+1}: bad hint: {s}")
                     cur = []
-                    d["hints"].append((mm.group(1), mm.group(2), cur, s.startswith("//@hintn")))
+                    d["hints"].append((mm.group(1), mm.group(2).replace("\\n", "\n"), cur, s.startswith("//@hintn")))
                 elif s.startswith("//@spec") and not s.startswith("//@specfrom"):
                     cur = d["spec"]
                     tags = re.findall(r"@C\d+", s)
